@@ -1510,3 +1510,50 @@ func readOnlyReceiverCall(call *ssa.Call, addr ssa.Value) bool {
 	}
 	return pureMethodNames[sc.Name()] && !returnsError(sc.Signature)
 }
+
+// calleeOf: the function a call invokes: its static callee, or - for a call through a local variable that holds a
+// function literal and is assigned once (a literal that another literal calls is kept in such a variable) - that literal.
+// The closure value, when there is one, carries the bindings of the captured variables.
+func calleeOf(cc *ssa.CallCommon) (*ssa.Function, *ssa.MakeClosure) {
+	if cc.IsInvoke() {
+		return nil, nil
+	}
+	if sc := cc.StaticCallee(); sc != nil {
+		mc, _ := cc.Value.(*ssa.MakeClosure)
+		return sc, mc
+	}
+	v := cc.Value
+	for i := 0; i < 3; i++ {
+		ld, ok := v.(*ssa.UnOp)
+		if !ok || ld.Op != token.MUL {
+			break
+		}
+		var sv ssa.Value
+		switch ad := ld.X.(type) {
+		case *ssa.Alloc:
+			sv = capturedSingleStore(ad)
+			if sv != nil {
+				if st := storeOf(ad); st == nil || !(st.Block() == ld.Block() || st.Block().Dominates(ld.Block())) {
+					sv = nil
+				}
+			}
+		case *ssa.FreeVar:
+			if cv := capturedValue(ld); cv != ssa.Value(ld) {
+				sv = cv
+			}
+		}
+		if sv == nil {
+			break
+		}
+		v = sv
+	}
+	switch x := v.(type) {
+	case *ssa.Function:
+		return x, nil
+	case *ssa.MakeClosure:
+		if f, ok := x.Fn.(*ssa.Function); ok {
+			return f, x
+		}
+	}
+	return nil, nil
+}
